@@ -414,10 +414,17 @@ class NameConverter(ast.NodeTransformer):
 
     def visit_Name(self, node):
         if node.id == self.recurse_sym:
-            return ast.copy_location(
-                old_node=node,
-                new_node=ast.Name(self.ovld_mangled, ctx=node.ctx),
-            )
+            new_node = ast.Name(self.ovld_mangled, ctx=node.ctx)
+            if self.analysis.is_method and isinstance(node.ctx, ast.Load):
+                # In a method, recurse stands for the bound method
+                new_node = ast.Call(
+                    func=ast.Attribute(
+                        value=new_node, attr="__get__", ctx=ast.Load()
+                    ),
+                    args=[ast.Name(id="self", ctx=ast.Load())],
+                    keywords=[],
+                )
+            return ast.copy_location(old_node=node, new_node=new_node)
         elif node.id == self.call_next_sym:
             raise UsageError("call_next should be called right away")
         else:
